@@ -110,6 +110,8 @@ var c01Hand = []string{
 	`let l=[a,b,c].merge([b],(p,q)->p<q); let u=a*3; let v=b+u; [l.first(),u,v]`,
 	`let l=[a,b,c].combineN(2,w->w[0]-w[1]); let u=a; let v=b*b; [l.sum(),u,v]`,
 	`func g(x) let l=[x,a].combine((p,q)->p*q); let u=x+1; let v=u+b; l.sum()+u*10+v*100; g(c)`,
+	`let l=[a,b].append(c); let p=l+[1]; let q=l+[2]; [p,q,l]`,
+	`let l=[a,b,c].map(e->e).eval(); let p=l.top(2).append(7); let q=l.top(2).append(8); [p,q,l]`,
 	// recursion from inside a nested closure or an inner func
 	`func f(n) if n<=0 then a else [1].map(e->f(n-1)+e)[0]; f(2)+b`,
 	`func f(n) let g=k->if k<=0 then b else f(k-1)+1; g(n); f(3)+a`,
